@@ -151,10 +151,21 @@ namespace rpc {
                                 }
                                 if (ret == -1) {
                                     // or just timed out
+                                    bool taken;
                                     {
                                         SCOPED_LOCK(m_mutex_map);
-                                        m_map.erase(args.tag);
+                                        taken = (m_map.erase(args.tag) == 0);
                                         m_cond_collected.notify_one();
+                                    }
+                                    if (taken) {
+                                        // The reader has already taken this context out of
+                                        // the map and is collecting the response into our
+                                        // buffers (it may be blocked on the stream): we must
+                                        // not return, and let the caller release them, before
+                                        // it marks the context COLLECTED and wakes us up.
+                                        while (args.phase != OooPhase::COLLECTED)
+                                            m_wait.wait(args.phaselock);
+                                        return args.ret;
                                     }
                                     LOG_ERROR_RETURN(ETIMEDOUT, -1, "waiting for completion timeout");
                                 }
